@@ -4,17 +4,23 @@
 (* started, and what became of each item in the design.                                    *)
 EXTENDS Shutdown, Json, TLC
 
-MCKindOrder == <<"http", "https", "tcp", "tcp+sni", "grpc", "https+tcp+sni">>
+\* "tcp+tls" is a tcp listener that terminates TLS itself (proto=tcp with a certificate source)
+MCKindOrder == <<"http", "https", "tcp", "tcp+sni", "grpc", "https+tcp+sni", "tcp+tls">>
 \* the design treats all kinds alike (only the deviation singles out grpc): configurations of three
 \* listeners are explored over four kinds, which covers every 3-subset of the six up to renaming
 MCKindOrder4 == <<"http", "tcp", "grpc", "https+tcp+sni">>
 \* listeners that share their port with another listener of the configuration, on another local address
 MCKindOrderTwins == <<"http", "tcp", "grpc", "http~2", "tcp~2", "grpc~2", "tcp+sni~2">>
-MCTunnelKinds == {"tcp", "tcp+sni", "https+tcp+sni", "tcp~2", "tcp+sni~2"}
+MCTunnelKinds == {"tcp", "tcp+sni", "https+tcp+sni", "tcp+tls", "tcp~2", "tcp+sni~2"}
 MCGrpcKinds == {"grpc", "grpc~2"}
 MCDurOrder == <<"short", "long", "inf", "mute">>
-\* short < W < long; inf never ends; mute never ends either (half-closed tunnel, silent upstream)
-MCDur == [d \in {"short", "long", "inf", "mute"} |-> CASE d = "short" -> 1 [] d = "long" -> W + 2 [] OTHER -> -1]
+\* work that ends just within the wait, and connections that never get as far as a request: the client
+\* connected and sends nothing, or stops in the middle of its TLS ClientHello
+MCDurOrderEdge == <<"short", "edge", "stall">>
+\* short < edge < W < long; inf never ends; mute never ends either (half-closed tunnel, silent upstream);
+\* stall never ends
+MCDur == [d \in {"short", "edge", "long", "inf", "mute", "stall"} |->
+             CASE d = "short" -> 1 [] d = "edge" -> W - 1 [] d = "long" -> W + 2 [] OTHER -> -1]
 
 ItemJson(it) == [srv |-> it.srv, dur |-> it.dur, at |-> it.at, st |-> it.st]
 Scenario == [kinds |-> kinds, tstart |-> tstart, tret |-> clock, w |-> W,
